@@ -2,12 +2,14 @@
 // E-ENUM over the real templates (gcd, reduce_fraction, log2i, Vector2/3/4, Matrix4) and E-ENV for
 // random_int/random_data: the /dev/urandom stream is owned through a link-time wrapped read(), and
 // every history over random_data's function-local static buffer starts in a forked child.
+// Vector sections: harness/C20_vec.cc, C20_vecw{1,2,3}.cc; matrix sections: harness/C20_mat.cc; shared helpers: C20_common.hh.
 #include <fcntl.h>
 #include <math.h>
 #include <sys/stat.h>
 #include <sys/sysmacros.h>
 #include <sys/types.h>
 
+#include <algorithm>
 #include <array>
 #include <limits>
 #include <numeric>
@@ -18,38 +20,30 @@
 
 #include "Math.hh"  // has no include guard: include exactly once
 #include "Random.hh"
-#include "Vector.hh"
-#include "vf.hh"
+#include "C20_common.hh"
 
-using phosg::Matrix4;
-using phosg::Vector2;
-using phosg::Vector3;
-using phosg::Vector4;
-
-typedef unsigned __int128 u128;
-typedef __int128 i128;
+using namespace c20;
 
 namespace {
-
-std::string s128(i128 v) {
-  if (v == 0) return "0";
-  bool neg = v < 0;
-  u128 u = neg ? (u128)(-(v + 1)) + 1 : (u128)v;
-  std::string s;
-  while (u) { s.insert(s.begin(), (char)('0' + (int)(u % 10))); u /= 10; }
-  return neg ? "-" + s : s;
-}
 
 // ------------------------------------------------------------------------------------------------
 // gcd / reduce_fraction
 // ------------------------------------------------------------------------------------------------
 
+// One (a, b): gcd and reduce_fraction against their defining equations.  Every call of the code under test runs
+// under trapped(): a division trap (SIGFPE) is an outcome of the case, not a crash of the shard.
 template <class T>
 void gcd_case(vf::Run& r, const char* tn, T a, T b) {
   if (r.wants_desc()) r.desc(vf::fmt("gcd/reduce_fraction<%s>(%s, %s)", tn, s128(a).c_str(), s128(b).c_str()));
   std::string K = std::string("<") + tn + ">";
   uint64_t ua = (uint64_t)a, ub = (uint64_t)b;  // operands are non-negative
-  T g = phosg::gcd<T>(a, b);
+  T g = 0;
+  r.poison_errno();
+  if (int sig = trapped([&] { g = phosg::gcd<T>(a, b); })) {
+    r.nontriv();
+    r.fail("gcd" + K + ":arithmetic-trap", [&] { return vf::fmt("gcd<%s>(%s, %s) raised signal %d (%s); std::gcd gives %llu", tn, s128(a).c_str(), s128(b).c_str(), sig, strsignal(sig), (unsigned long long)std::gcd(ua, ub)); });
+    return;
+  }
   uint64_t ug = (uint64_t)g;
   auto d = [&] { return vf::fmt("gcd<%s>(%s, %s) returned %s; std::gcd gives %llu", tn, s128(a).c_str(), s128(b).c_str(), s128(g).c_str(), (unsigned long long)std::gcd(ua, ub)); };
   bool bad = false;
@@ -70,7 +64,12 @@ void gcd_case(vf::Run& r, const char* tn, T a, T b) {
   // ... and beyond it the binary-gcd of libstdc++ (independent of the Euclid loop under test)
   if (!bad && ug != std::gcd(ua, ub)) { r.fail("gcd" + K + ":not-greatest", d); bad = true; }
 
-  auto f = phosg::reduce_fraction<T>(a, b);
+  std::pair<T, T> f(0, 0);
+  r.poison_errno();
+  if (int sig = trapped([&] { f = phosg::reduce_fraction<T>(a, b); })) {
+    r.fail("reduce_fraction" + K + ":arithmetic-trap", [&] { return vf::fmt("reduce_fraction<%s>(%s, %s) raised signal %d (%s)", tn, s128(a).c_str(), s128(b).c_str(), sig, strsignal(sig)); });
+    return;
+  }
   uint64_t fa = (uint64_t)f.first, fb = (uint64_t)f.second;
   auto d2 = [&] { return vf::fmt("reduce_fraction<%s>(%s, %s) returned (%s, %s)", tn, s128(a).c_str(), s128(b).c_str(), s128(f.first).c_str(), s128(f.second).c_str()); };
   if (f.first < 0 || f.second < 0) { r.fail("reduce_fraction" + K + ":negative-term", d2); bad = true; }
@@ -106,6 +105,117 @@ void gcd_type(vf::Run& r, const char* tn) {
       if (i >= B.size() && j >= B.size()) continue;  // small x small is inside the block above
       if (!r.take()) continue;
       gcd_case<T>(r, tn, (T)all[i], (T)all[j]);
+    }
+  }
+}
+
+// {0,1,2,3,6} and 2^k-1, 2^k, 2^k+1, 3*2^k, 6*2^k for every k below the width, clipped to [0, max(T)], ascending
+template <class T>
+std::vector<uint64_t> power_alphabet() {
+  const u128 maxv = (u128)(uint64_t)std::numeric_limits<T>::max();
+  std::set<uint64_t> s = {0, 1, 2, 3, 6};
+  for (unsigned k = 0; k < sizeof(T) * 8; k++) {
+    u128 p = (u128)1 << k;
+    for (u128 v : {p - 1, p, p + 1, 3 * p, 6 * p}) if (v <= maxv) s.insert((uint64_t)v);
+  }
+  s.insert((uint64_t)maxv);
+  s.insert((uint64_t)maxv - 1);
+  return std::vector<uint64_t>(s.begin(), s.end());
+}
+
+// all ordered pairs of the power alphabet: operands in different size classes of the type (2^31 vs 2^32-1 in a 64-bit
+// type, 2^15 in a 32-bit type, ...), which neither the [0,300]^2 block nor the type's own limits reach
+template <class T>
+void gcd_grid(vf::Run& r, const char* tn) {
+  r.note(std::string("gcd<") + tn + "> power grid");
+  std::vector<uint64_t> B = power_alphabet<T>();
+  for (uint64_t a : B) {
+    for (uint64_t b : B) {
+      if (!r.take()) continue;
+      gcd_case<T>(r, tn, (T)a, (T)b);
+    }
+  }
+  if (r.shard == 0) r.counters[std::string("grid_alphabet<") + tn + ">"] = B.size();
+}
+
+// Histories: gcd/reduce_fraction are pure, so a call must give the same answer whatever was computed before it.
+// Every ordered pair (p, q) of operand pairs runs as gcd(p) gcd(q) gcd(p) reduce(q) reduce(p) gcd(q); every ordered
+// triple of a smaller set as gcd(p) gcd(q) gcd(s) reduce(p) reduce(q) reduce(s).  Oracle per call: libstdc++ std::gcd.
+template <class T>
+struct GcdHist {
+  vf::Run& r;
+  const char* tn;
+  bool bad = false;
+  typedef std::pair<uint64_t, uint64_t> PQ;
+  std::vector<std::pair<char, PQ>> calls;
+  std::string hstr() const {
+    std::string s;
+    for (auto& c : calls) s += vf::fmt(" %s(%llu,%llu)", c.first == 'g' ? "gcd" : "reduce_fraction", (unsigned long long)c.second.first, (unsigned long long)c.second.second);
+    return s.empty() ? " (none)" : s;
+  }
+  void one_gcd(PQ p) {
+    T g = 0;
+    r.poison_errno();
+    int sig = trapped([&] { g = phosg::gcd<T>((T)p.first, (T)p.second); });
+    uint64_t want = std::gcd(p.first, p.second);
+    if (sig || g < 0 || (uint64_t)g != want) {
+      bad = true;
+      r.fail(std::string("gcd<") + tn + ">:wrong-value-in-history", [&] { return vf::fmt("gcd<%s>(%llu, %llu) %s, expected %llu; calls before it in this history:%s", tn, (unsigned long long)p.first, (unsigned long long)p.second, sig ? "raised SIGFPE" : ("returned " + s128(g)).c_str(), (unsigned long long)want, hstr().c_str()); });
+    }
+    calls.push_back({'g', p});
+  }
+  void one_reduce(PQ p) {
+    if (p.first == 0 && p.second == 0) return;
+    std::pair<T, T> f(0, 0);
+    r.poison_errno();
+    int sig = trapped([&] { f = phosg::reduce_fraction<T>((T)p.first, (T)p.second); });
+    uint64_t g = std::gcd(p.first, p.second);
+    if (sig || f.first < 0 || f.second < 0 || (uint64_t)f.first != p.first / g || (uint64_t)f.second != p.second / g) {
+      bad = true;
+      r.fail(std::string("reduce_fraction<") + tn + ">:wrong-value-in-history", [&] { return vf::fmt("reduce_fraction<%s>(%llu, %llu) %s, expected (%llu, %llu); calls before it in this history:%s", tn, (unsigned long long)p.first, (unsigned long long)p.second, sig ? "raised SIGFPE" : ("returned (" + s128(f.first) + ", " + s128(f.second) + ")").c_str(), (unsigned long long)(p.first / g), (unsigned long long)(p.second / g), hstr().c_str()); });
+    }
+    calls.push_back({'r', p});
+  }
+};
+
+template <class T>
+void gcd_histories(vf::Run& r, const char* tn) {
+  r.note(std::string("gcd<") + tn + "> histories");
+  const unsigned w = sizeof(T) * 8;
+  const uint64_t maxv = (uint64_t)std::numeric_limits<T>::max();
+  auto pairs_of = [&](std::vector<u128> vals) {
+    std::set<uint64_t> s;
+    for (u128 v : vals) if (v <= maxv) s.insert((uint64_t)v);
+    std::vector<std::pair<uint64_t, uint64_t>> out;
+    for (uint64_t a : s) for (uint64_t b : s) out.push_back({a, b});
+    return out;
+  };
+  u128 h = (u128)1 << (w / 2);
+  auto P2 = pairs_of({0, 1, 2, 6, h / 2, h - 1, h, 3 * (h / 2), (u128)1 << (w - 2), (u128)1 << (w - 1), (u128)maxv - 1, maxv});
+  auto P3 = pairs_of({0, 6, h, 3 * (h / 2), maxv});
+  GcdHist<T> H{r, tn, false, {}};
+  for (auto& p : P2) {
+    for (auto& q : P2) {
+      if (!r.take()) continue;
+      if (r.wants_desc()) r.desc(vf::fmt("history on <%s>: gcd(p) gcd(q) gcd(p) reduce_fraction(q) reduce_fraction(p) gcd(q) with p=(%llu,%llu) q=(%llu,%llu)", tn, (unsigned long long)p.first, (unsigned long long)p.second, (unsigned long long)q.first, (unsigned long long)q.second));
+      H.bad = false;
+      H.calls.clear();
+      H.one_gcd(p); H.one_gcd(q); H.one_gcd(p); H.one_reduce(q); H.one_reduce(p); H.one_gcd(q);
+      r.nontriv();
+      if (!H.bad) r.ok(p == q ? "history: same operands repeated" : (p.first == q.first || p.second == q.second) ? "history: operand pairs share one operand" : "history: different operand pairs");
+    }
+  }
+  for (auto& p : P3) {
+    for (auto& q : P3) {
+      for (auto& s : P3) {
+        if (!r.take()) continue;
+        if (r.wants_desc()) r.desc(vf::fmt("history on <%s>: gcd(p) gcd(q) gcd(s) reduce_fraction(p) reduce_fraction(q) reduce_fraction(s) with p=(%llu,%llu) q=(%llu,%llu) s=(%llu,%llu)", tn, (unsigned long long)p.first, (unsigned long long)p.second, (unsigned long long)q.first, (unsigned long long)q.second, (unsigned long long)s.first, (unsigned long long)s.second));
+        H.bad = false;
+        H.calls.clear();
+        H.one_gcd(p); H.one_gcd(q); H.one_gcd(s); H.one_reduce(p); H.one_reduce(q); H.one_reduce(s);
+        r.nontriv();
+        if (!H.bad) r.ok("history: three operand pairs");
+      }
     }
   }
 }
@@ -163,12 +273,55 @@ template <class T>
 void log2i_lanes(vf::Run& r, const char* tn) {
   static const uint8_t L5[5] = {0x00, 0x01, 0x7F, 0x80, 0xFF};
   const uint64_t maxv = (uint64_t)std::numeric_limits<T>::max();
-  for (vf::Odometer o(std::vector<uint32_t>(8, 5)); !o.done; o.step()) {
+  for (vf::Odometer o(std::vector<uint32_t>(sizeof(T), 5)); !o.done; o.step()) {
     uint64_t v = 0;
-    for (int i = 0; i < 8; i++) v |= (uint64_t)L5[o.d[i]] << (8 * i);
+    for (size_t i = 0; i < sizeof(T); i++) v |= (uint64_t)L5[o.d[i]] << (8 * i);
     if (v == 0 || v > maxv) continue;
     if (!r.take()) continue;
     log2i_case<T>(r, tn, (T)v);
+  }
+}
+
+// values with two bits set (2^j + 2^i: covers 3*2^k, 5*2^k, ...) and runs of ones (2^(j+1) - 2^i)
+template <class T>
+void log2i_twobit(vf::Run& r, const char* tn) {
+  r.note(std::string("log2i<") + tn + "> two-bit values");
+  const u128 maxv = (u128)(uint64_t)std::numeric_limits<T>::max();
+  for (unsigned j = 1; j < sizeof(T) * 8; j++) {
+    for (unsigned i = 0; i < j; i++) {
+      for (u128 v : {((u128)1 << j) + ((u128)1 << i), ((u128)1 << (j + 1)) - ((u128)1 << i)}) {
+        if (v > maxv) continue;
+        if (!r.take()) continue;
+        log2i_case<T>(r, tn, (T)(uint64_t)v);
+      }
+    }
+  }
+}
+
+// histories u, v, u over all ordered pairs of {2^k-1, 2^k, 2^k+1, max}: a pure function answers the same after any call
+template <class T>
+void log2i_histories(vf::Run& r, const char* tn) {
+  r.note(std::string("log2i<") + tn + "> histories");
+  const u128 maxv = (u128)(uint64_t)std::numeric_limits<T>::max();
+  std::set<uint64_t> bs;
+  for (unsigned k = 0; k < sizeof(T) * 8; k++)
+    for (int dlt = -1; dlt <= 1; dlt++) {
+      u128 v = ((u128)1 << k) + dlt;
+      if (v >= 1 && v <= maxv) bs.insert((uint64_t)v);
+    }
+  bs.insert((uint64_t)maxv);
+  std::vector<uint64_t> B(bs.begin(), bs.end());
+  for (uint64_t u : B) {
+    for (uint64_t v : B) {
+      if (!r.take()) continue;
+      if (r.wants_desc()) r.desc(vf::fmt("history log2i<%s>(%llu), log2i(%llu), log2i(%llu)", tn, (unsigned long long)u, (unsigned long long)v, (unsigned long long)u));
+      r.poison_errno();
+      T e1 = phosg::log2i<T>((T)u), e2 = phosg::log2i<T>((T)v), e3 = phosg::log2i<T>((T)u);
+      r.nontriv();
+      if (!log2i_ok<T>((T)u, e1) || !log2i_ok<T>((T)v, e2) || !log2i_ok<T>((T)u, e3)) {
+        r.fail(std::string("log2i<") + tn + ">:wrong-value-in-history", [&] { return vf::fmt("log2i<%s> called on %llu, %llu, %llu returned %s, %s, %s; floor(log2) is %d, %d, %d", tn, (unsigned long long)u, (unsigned long long)v, (unsigned long long)u, s128(e1).c_str(), s128(e2).c_str(), s128(e3).c_str(), ref_log2(u), ref_log2(v), ref_log2(u)); });
+      } else r.ok(u == v ? "history: same value" : u > v ? "history: larger then smaller then larger" : "history: smaller then larger then smaller");
+    }
   }
 }
 
@@ -177,9 +330,13 @@ void log2i_lanes(vf::Run& r, const char* tn) {
 // ------------------------------------------------------------------------------------------------
 
 enum StreamKind { ST_OFF = 0, ST_CONST, ST_DIGIT, ST_SHIFT };
+// what the fail_at-th read() on the urandom descriptor answers instead of a complete read
+enum FailMode { FM_NONE = 0, FM_EINTR, FM_EIO, FM_SHORT_HALF, FM_SHORT_ONE_LESS, FM_ZERO };
 struct Stream {
   int kind = ST_OFF;
   unsigned param = 0;
+  unsigned fail_at = 0;  // 1-based index of the read that fails; 0 = none
+  int fail_mode = FM_NONE;
   uint64_t served = 0;  // bytes served so far == absolute position of the next byte
   uint64_t reads = 0;
   inline uint8_t at(uint64_t i) const {
@@ -191,15 +348,19 @@ struct Stream {
     return 0;
   }
   std::string name() const {
+    std::string s = "off";
     switch (kind) {
-      case ST_CONST: return vf::fmt("constant %02X", param);
-      case ST_DIGIT: return param == 0 ? std::string("counter (byte i = i mod 256)") : vf::fmt("position digit %u (byte i = (i >> %u) mod 256)", param, 8 * param);
-      case ST_SHIFT: return vf::fmt("shifted counter (byte i = (%u + i) mod 256)", param);
+      case ST_CONST: s = vf::fmt("constant %02X", param); break;
+      case ST_DIGIT: s = param == 0 ? std::string("counter (byte i = i mod 256)") : vf::fmt("position digit %u (byte i = (i >> %u) mod 256)", param, 8 * param); break;
+      case ST_SHIFT: s = vf::fmt("shifted counter (byte i = (%u + i) mod 256)", param); break;
     }
-    return "off";
+    static const char* FM[] = {"", "fails with EINTR", "fails with EIO", "returns half of the bytes", "returns one byte less", "returns 0 (end of file)"};
+    if (fail_at) s += vf::fmt("; read #%u %s", fail_at, FM[fail_mode]);
+    return s;
   }
 };
 Stream g_stream;
+int g_ambient_errno = 0;  // set in the child before every call under test (ambient errno is part of the environment)
 
 bool is_urandom(int fd) {
   struct stat st;
@@ -212,11 +373,21 @@ bool is_urandom(int fd) {
 extern "C" ssize_t __real_read(int fd, void* buf, size_t n);
 extern "C" ssize_t __wrap_read(int fd, void* buf, size_t n) {
   if (g_stream.kind != ST_OFF && is_urandom(fd)) {
-    uint8_t* p = (uint8_t*)buf;
-    for (size_t i = 0; i < n; i++) p[i] = g_stream.at(g_stream.served + i);
-    g_stream.served += n;
     g_stream.reads++;
-    return (ssize_t)n;
+    size_t give = n;
+    if (g_stream.fail_at && g_stream.reads == g_stream.fail_at) {
+      switch (g_stream.fail_mode) {
+        case FM_EINTR: errno = EINTR; return -1;
+        case FM_EIO: errno = EIO; return -1;
+        case FM_SHORT_HALF: give = n / 2; break;
+        case FM_SHORT_ONE_LESS: give = n ? n - 1 : 0; break;
+        case FM_ZERO: give = 0; break;
+      }
+    }
+    uint8_t* p = (uint8_t*)buf;
+    for (size_t i = 0; i < give; i++) p[i] = g_stream.at(g_stream.served + i);
+    g_stream.served += give;
+    return (ssize_t)give;
   }
   return __real_read(fd, buf, n);
 }
@@ -228,10 +399,12 @@ namespace {
 struct ChildResult {
   bool ok = false;
   std::string data, why;
+  uint64_t served() const { return *(const uint64_t*)(data.data() + 1); }
+  uint64_t reads() const { return *(const uint64_t*)(data.data() + 9); }
 };
 
 template <class F>
-ChildResult run_child(const Stream& st, F&& fn) {
+ChildResult run_child(const Stream& st, int ambient_errno, F&& fn, unsigned timeout_s = 60) {
   ChildResult res;
   int pfd[2];
   if (pipe(pfd) != 0) { res.why = "pipe failed"; return res; }
@@ -241,10 +414,12 @@ ChildResult run_child(const Stream& st, F&& fn) {
   if (pid < 0) { res.why = "fork failed"; close(pfd[0]); close(pfd[1]); return res; }
   if (pid == 0) {
     close(pfd[0]);
-    alarm(60);
+    alarm(timeout_s);
+    signal(SIGFPE, SIG_DFL);  // a division trap ends the child with SIGFPE itself (no sanitizer report in between)
     g_stream = st;
     g_stream.served = 0;
     g_stream.reads = 0;
+    g_ambient_errno = ambient_errno;
     std::string out;
     char tag = 'K';
     try {
@@ -281,13 +456,28 @@ ChildResult run_child(const Stream& st, F&& fn) {
   int status = 0;
   while (waitpid(pid, &status, 0) < 0 && errno == EINTR) {}
   if (!WIFEXITED(status) || WEXITSTATUS(status) != 0) {
-    res.why = WIFSIGNALED(status) ? vf::fmt("child killed by signal %d", WTERMSIG(status)) : vf::fmt("child exited with status %d", WEXITSTATUS(status));
+    res.why = WIFSIGNALED(status) ? vf::fmt("child killed by signal %d (%s)", WTERMSIG(status), strsignal(WTERMSIG(status))) : vf::fmt("child exited with status %d", WEXITSTATUS(status));
     return res;
   }
   if (res.data.size() < 17) { res.why = "child sent a short report"; return res; }
   if (res.data[0] == 'X') { res.why = "exception: " + res.data.substr(17); return res; }
   res.ok = true;
   return res;
+}
+
+// In the child, after some requests: continue in a grandchild (fork copies the thread-local buffer and the open
+// descriptor); the intermediate process only relays the exit status, the grandchild writes the report.
+void continue_in_forked_copy() {
+  fflush(stdout);
+  fflush(stderr);
+  pid_t g = fork();
+  if (g < 0) _exit(6);
+  if (g > 0) {
+    int st = 0;
+    while (waitpid(g, &st, 0) < 0 && errno == EINTR) {}
+    _exit(WIFEXITED(st) ? WEXITSTATUS(st) : 5);
+  }
+  alarm(60);
 }
 
 struct Pair { int64_t lo, hi; };
@@ -311,33 +501,62 @@ std::vector<Pair> random_int_pairs(bool small_only) {
   return out;
 }
 
+// every span hi-lo in {2^k-2, 2^k-1, 2^k, 2^k+1 : k = 1..63} below 2^63, ascending
+std::vector<uint64_t> span_grid() {
+  std::set<uint64_t> s;
+  for (unsigned k = 1; k <= 63; k++)
+    for (int dlt = -2; dlt <= 1; dlt++) {
+      u128 d = ((u128)1 << k) + dlt;
+      if (d < ((u128)1 << 63)) s.insert((uint64_t)d);
+    }
+  return std::vector<uint64_t>(s.begin(), s.end());
+}
+// all (lo, lo+d) for lo in {INT64_MIN, -2^32, -1, 0, 1, 2^31, 2^32, INT64_MAX-d} that do not overflow
+std::vector<Pair> pairs_for_span(uint64_t d) {
+  std::vector<Pair> out;
+  std::set<int64_t> seen;
+  for (int64_t lo : std::initializer_list<int64_t>{INT64_MIN, -(1ll << 32), -1, 0, 1, 1ll << 31, 1ll << 32, (int64_t)((uint64_t)INT64_MAX - d)}) {
+    if ((i128)lo + (i128)d > (i128)INT64_MAX) continue;
+    if (!seen.insert(lo).second) continue;
+    out.push_back({lo, (int64_t)((uint64_t)lo + d)});
+  }
+  return out;
+}
+
 std::string pair_str(const Pair& p) { return vf::fmt("random_int(%lld, %lld)", (long long)p.lo, (long long)p.hi); }
 
-const size_t RD_SIZES[] = {0, 1, 2, 4095, 4096, 4097, 8191, 8193};
 const size_t CANARY = 16;
 const uint8_t SENTINEL = 0xA5;
 
 // child side of one random_data history: each request gets its own heap frame
-// [16 canary][size sentinel bytes][16 canary]; frames are shipped back verbatim
-void rd_history_child(const std::vector<size_t>& sizes, bool string_overload, std::string& out) {
+// [16 canary][size sentinel bytes][16 canary]; frames are shipped back verbatim.  Per request the report holds
+// [1 tag: K returned / T threw][8 size][frame or string].  fork_after = n > 0: after the n-th request the history
+// continues in a forked copy of the process.  catch_each: an exception ends only that request (failing-read plans).
+void rd_history_child(const std::vector<size_t>& sizes, bool string_overload, size_t fork_after, bool catch_each, std::string& out) {
+  size_t done = 0;
   for (size_t sz : sizes) {
+    if (fork_after && done == fork_after) continue_in_forked_copy();
+    done++;
     std::string frame(CANARY + sz + CANARY, (char)SENTINEL);
     for (size_t i = 0; i < CANARY; i++) {
       frame[i] = (char)(0xC0 + i);
       frame[CANARY + sz + i] = (char)(0xD0 + i);
     }
-    if (string_overload) {
-      std::string s = phosg::random_data(sz);
-      uint64_t n = s.size();
-      out.append((const char*)&n, 8);
-      out += s;
-    } else {
+    char tag = 'K';
+    std::string s;
+    try {
+      errno = g_ambient_errno;
+      if (string_overload) s = phosg::random_data(sz);
       // written in place: a stray write within 16 bytes lands on a canary, further out on an ASan redzone
-      phosg::random_data(frame.data() + CANARY, sz);
-      uint64_t n = sz;
-      out.append((const char*)&n, 8);
-      out += frame;
+      else phosg::random_data(frame.data() + CANARY, sz);
+    } catch (const std::exception&) {
+      if (!catch_each) throw;
+      tag = 'T';
     }
+    out += tag;
+    uint64_t n = string_overload ? s.size() : sz;
+    out.append((const char*)&n, 8);
+    out += string_overload ? s : frame;
   }
 }
 
@@ -347,431 +566,6 @@ std::string sizes_str(const std::vector<size_t>& v) {
   return s + "]";
 }
 
-// ------------------------------------------------------------------------------------------------
-// vectors
-// ------------------------------------------------------------------------------------------------
-
-template <class T, size_t N> struct VecOf;
-template <class T> struct VecOf<T, 2> { typedef Vector2<T> type; };
-template <class T> struct VecOf<T, 3> { typedef Vector3<T> type; };
-template <class T> struct VecOf<T, 4> { typedef Vector4<T> type; };
-
-template <class T> Vector2<T> mk(const std::array<T, 2>& c) { return Vector2<T>(c[0], c[1]); }
-template <class T> Vector3<T> mk(const std::array<T, 3>& c) { return Vector3<T>(c[0], c[1], c[2]); }
-template <class T> Vector4<T> mk(const std::array<T, 4>& c) { return Vector4<T>(c[0], c[1], c[2], c[3]); }
-template <class T> std::array<T, 2> comps(const Vector2<T>& v) { return {v.x, v.y}; }
-template <class T> std::array<T, 3> comps(const Vector3<T>& v) { return {v.x, v.y, v.z}; }
-template <class T> std::array<T, 4> comps(const Vector4<T>& v) { return {v.x, v.y, v.z, v.w}; }
-
-template <class T, size_t N>
-std::string astr(const std::array<T, N>& a) {
-  std::string s = "(";
-  for (size_t i = 0; i < N; i++) s += (i ? "," : "") + vf::fmt("%g", (double)a[i]);
-  return s + ")";
-}
-
-template <class T> const char* tname();
-template <> const char* tname<int64_t>() { return "int64_t"; }
-template <> const char* tname<double>() { return "double"; }
-
-template <class T, size_t N>
-struct VecCheck {
-  typedef typename VecOf<T, N>::type V;
-  typedef std::array<T, N> A;
-  vf::Run& r;
-  std::string cls;
-  bool bad = false;
-  explicit VecCheck(vf::Run& r) : r(r), cls(vf::fmt("Vector%zu<%s>", N, tname<T>())) {}
-
-  template <class D>
-  void expect_vec(const char* op, const V& got, const A& want, D&& ctx) {
-    if (comps(got) != want) {
-      bad = true;
-      r.fail(vf::fmt("Vector%zu::%s:wrong-value", N, op), [&] { return cls + " " + ctx() + " " + op + " gave " + astr(comps(got)) + ", componentwise definition gives " + astr(want); });
-    }
-  }
-  template <class S, class D>
-  void expect_val(const char* op, S got, S want, D&& ctx) {
-    if (!(got == want)) {
-      bad = true;
-      r.fail(vf::fmt("Vector%zu::%s:wrong-value", N, op), [&] { return cls + " " + ctx() + " " + op + vf::fmt(" gave %.17g, definition gives %.17g", (double)got, (double)want); });
-    }
-  }
-
-  static A map2(const A& a, const A& b, T (*f)(T, T)) {
-    A o;
-    for (size_t i = 0; i < N; i++) o[i] = f(a[i], b[i]);
-    return o;
-  }
-  static A map1(const A& a, T s, T (*f)(T, T)) {
-    A o;
-    for (size_t i = 0; i < N; i++) o[i] = f(a[i], s);
-    return o;
-  }
-  static T add(T x, T y) { return x + y; }
-  static T sub(T x, T y) { return x - y; }
-  static T mul(T x, T y) { return x * y; }
-  static T dvd(T x, T y) { return x / y; }
-  static T mod(T x, T y) {
-    if constexpr (std::is_integral_v<T>) return x % y;
-    else return 0;
-  }
-
-  // binary operators on a pair of vectors
-  void pair(const A& ca, const A& cb) {
-    bad = false;
-    V a = mk<T>(ca), b = mk<T>(cb);
-    auto ctx = [&] { return "a=" + astr(ca) + " b=" + astr(cb); };
-    expect_vec("operator+", a + b, map2(ca, cb, add), ctx);
-    expect_vec("operator-", a - b, map2(ca, cb, sub), ctx);
-    {
-      V t = a;
-      V& ref = (t += b);
-      expect_vec("operator+=", t, map2(ca, cb, add), ctx);
-      if (&ref != &t) { bad = true; r.fail(vf::fmt("Vector%zu::operator+=:returns-other-object", N), [&] { return cls + " " + ctx(); }); }
-      V u = a;
-      V& ref2 = (u -= b);
-      expect_vec("operator-=", u, map2(ca, cb, sub), ctx);
-      if (&ref2 != &u) { bad = true; r.fail(vf::fmt("Vector%zu::operator-=:returns-other-object", N), [&] { return cls + " " + ctx(); }); }
-    }
-    expect_vec("operands-unchanged", a, ca, ctx);
-    bool eq = (ca == cb);
-    expect_val<bool>("operator==", a == b, eq, ctx);
-    expect_val<bool>("operator!=", a != b, !eq, ctx);
-    expect_val<bool>("operator<", a < b, std::lexicographical_compare(ca.begin(), ca.end(), cb.begin(), cb.end()), ctx);
-    T dot = 0;
-    for (size_t i = 0; i < N; i++) dot += ca[i] * cb[i];
-    expect_val<T>("dot", a.dot(b), dot, ctx);
-    expect_val<T>("dot(commuted)", b.dot(a), dot, ctx);
-    if constexpr (N == 3) {
-      V c = a.cross(b);
-      A cc = comps(c);
-      // orthogonal to both operands (exact: small integers)
-      T da = 0, db = 0, n2 = 0, na = 0, nb = 0;
-      for (size_t i = 0; i < 3; i++) { da += cc[i] * ca[i]; db += cc[i] * cb[i]; n2 += cc[i] * cc[i]; na += ca[i] * ca[i]; nb += cb[i] * cb[i]; }
-      if (da != 0 || db != 0) { bad = true; r.fail("Vector3::cross:not-orthogonal", [&] { return cls + " " + ctx() + " cross=" + astr(cc) + vf::fmt(" cross.a=%g cross.b=%g", (double)da, (double)db); }); }
-      // Lagrange identity |a x b|^2 = |a|^2 |b|^2 - (a.b)^2 (rules out the zero vector), orientation by the
-      // right-hand-rule definition, anticommutativity
-      if (n2 != na * nb - dot * dot) { bad = true; r.fail("Vector3::cross:wrong-magnitude", [&] { return cls + " " + ctx() + " cross=" + astr(cc); }); }
-      A want = {ca[1] * cb[2] - ca[2] * cb[1], ca[2] * cb[0] - ca[0] * cb[2], ca[0] * cb[1] - ca[1] * cb[0]};
-      expect_vec("cross", c, want, ctx);
-      A neg = {-want[0], -want[1], -want[2]};
-      for (auto& x : neg) x = x + 0;  // -0.0 + 0 = +0.0 is irrelevant for ==, kept for clarity
-      if (!(comps(b.cross(a)) == neg)) { bad = true; r.fail("Vector3::cross:not-anticommutative", [&] { return cls + " " + ctx(); }); }
-    }
-    r.nontriv();
-    if (!bad) r.ok(eq ? "pair: equal vectors" : (a < b) ? "pair: a<b" : "pair: a>b");
-  }
-
-  // unary operators, accessors and vector (op) scalar for one vector and one scalar
-  void unary(const A& ca, T s) {
-    bad = false;
-    V a = mk<T>(ca);
-    auto ctx = [&] { return "a=" + astr(ca) + vf::fmt(" s=%g", (double)s); };
-    A neg;
-    bool allzero = true;
-    T n2 = 0;
-    for (size_t i = 0; i < N; i++) { neg[i] = -ca[i]; allzero = allzero && ca[i] == 0; n2 += ca[i] * ca[i]; }
-    expect_vec("operator-(unary)", -a, neg, ctx);
-    expect_val<bool>("operator!", !a, allzero, ctx);
-    for (size_t i = 0; i < N; i++) expect_val<T>("at", a.at(i), ca[i], ctx);
-    expect_val<size_t>("dimensions", V::dimensions(), N, ctx);
-    expect_val<T>("norm2", a.norm2(), n2, ctx);
-    {
-      double n = a.norm(), want = sqrt((double)n2);
-      if (fabs(n - want) > 1e-12 * (1 + want)) { bad = true; r.fail(vf::fmt("Vector%zu::norm:wrong-value", N), [&] { return cls + " " + ctx() + vf::fmt(" norm()=%.17g sqrt(sum of squares)=%.17g", n, want); }); }
-    }
-    (void)a.norm1();  // executed only: the statement does not define norm1 (the library returns the plain sum)
-    expect_vec("operator+(scalar)", a + s, map1(ca, s, add), ctx);
-    expect_vec("operator-(scalar)", a - s, map1(ca, s, sub), ctx);
-    expect_vec("operator*(scalar)", a * s, map1(ca, s, mul), ctx);
-    { V t = a; t += s; expect_vec("operator+=(scalar)", t, map1(ca, s, add), ctx); }
-    { V t = a; t -= s; expect_vec("operator-=(scalar)", t, map1(ca, s, sub), ctx); }
-    { V t = a; t *= s; expect_vec("operator*=(scalar)", t, map1(ca, s, mul), ctx); }
-    if (s != 0) {
-      expect_vec("operator/(scalar)", a / s, map1(ca, s, dvd), ctx);
-      { V t = a; t /= s; expect_vec("operator/=(scalar)", t, map1(ca, s, dvd), ctx); }
-      if constexpr (std::is_integral_v<T>) {
-        expect_vec("operator%(scalar)", a % s, map1(ca, s, mod), ctx);
-        { V t = a; t %= s; expect_vec("operator%=(scalar)", t, map1(ca, s, mod), ctx); }
-      }
-    }
-    expect_vec("operands-unchanged", a, ca, ctx);
-    // widening constructors
-    if constexpr (N == 3) {
-      V w(Vector2<T>(ca[0], ca[1]), ca[2]);
-      expect_vec("Vector3(Vector2,z)", w, ca, ctx);
-    }
-    if constexpr (N == 4) {
-      V w(Vector2<T>(ca[0], ca[1]), ca[2], ca[3]);
-      expect_vec("Vector4(Vector2,z,w)", w, ca, ctx);
-      V w3(Vector3<T>(ca[0], ca[1], ca[2]), ca[3]);
-      expect_vec("Vector4(Vector3,w)", w3, ca, ctx);
-    }
-    {
-      V z;
-      A zero{};
-      expect_vec("default-constructor", z, zero, ctx);
-    }
-    r.nontriv();
-    if (!bad) r.ok(s == 0 ? "unary+scalar: s=0 (division not executed)" : "unary+scalar");
-  }
-
-  // operator< is a strict weak order consistent with == (one triple)
-  void triple(const A& ca, const A& cb, const A& cc) {
-    bad = false;
-    V a = mk<T>(ca), b = mk<T>(cb), c = mk<T>(cc);
-    auto ctx = [&] { return "a=" + astr(ca) + " b=" + astr(cb) + " c=" + astr(cc); };
-    auto flag = [&](const char* law) { bad = true; r.fail(vf::fmt("Vector%zu::operator<:%s", N, law), [&] { return cls + " " + ctx(); }); };
-    bool ab = a < b, ba = b < a, bc = b < c, cb_ = c < b, ac = a < c, ca_ = c < a;
-    if (a < a || b < b || c < c) flag("not-irreflexive");
-    if ((ab && ba) || (bc && cb_) || (ac && ca_)) flag("not-asymmetric");
-    if (ab && bc && !ac) flag("not-transitive");
-    bool iab = !ab && !ba, ibc = !bc && !cb_, iac = !ac && !ca_;
-    if (iab && ibc && !iac) flag("incomparability-not-transitive");
-    if (iab != (a == b) || ibc != (b == c) || iac != (a == c)) flag("incomparable-differs-from-==");
-    if (ab != (ca < cb) || bc != (cb < cc) || ac != (ca < cc)) flag("not-lexicographic");
-    r.nontriv();
-    if (!bad) r.ok(iab && ibc ? "triple: all equal" : (ab && bc) ? "triple: ascending chain" : "triple: other");
-  }
-};
-
-template <class T, size_t N>
-void vec_pairs(vf::Run& r, int lo, int hi) {
-  r.note(vf::fmt("Vector%zu<%s>", N, tname<T>()));
-  VecCheck<T, N> ck(r);
-  uint32_t span = (uint32_t)(hi - lo + 1);
-  std::vector<uint32_t> radix(N, span);
-  // vector (op) scalar and unary operators: every vector x every scalar of the same range
-  for (vf::Odometer o(radix); !o.done; o.step()) {
-    std::array<T, N> a;
-    for (size_t i = 0; i < N; i++) a[i] = (T)(lo + (int)o.d[i]);
-    for (int s = lo; s <= hi; s++) {
-      if (!r.take()) continue;
-      if (r.wants_desc()) r.desc(vf::fmt("Vector%zu<%s> a=%s scalar %d: unary -, !, at, norm2, norm, + - * / %% with scalar, constructors", N, tname<T>(), astr(a).c_str(), s));
-      ck.unary(a, (T)s);
-    }
-  }
-  // all ordered pairs
-  for (vf::Odometer oa(radix); !oa.done; oa.step()) {
-    std::array<T, N> a;
-    for (size_t i = 0; i < N; i++) a[i] = (T)(lo + (int)oa.d[i]);
-    for (vf::Odometer ob(radix); !ob.done; ob.step()) {
-      if (!r.take()) continue;
-      std::array<T, N> b;
-      for (size_t i = 0; i < N; i++) b[i] = (T)(lo + (int)ob.d[i]);
-      if (r.wants_desc()) r.desc(vf::fmt("Vector%zu<%s> a=%s b=%s: + - += -= == != < dot%s", N, tname<T>(), astr(a).c_str(), astr(b).c_str(), N == 3 ? " cross" : ""));
-      ck.pair(a, b);
-    }
-  }
-}
-
-template <class T, size_t N>
-void vec_triples(vf::Run& r, int lo, int hi) {
-  r.note(vf::fmt("Vector%zu<%s>::operator<", N, tname<T>()));
-  VecCheck<T, N> ck(r);
-  uint32_t span = (uint32_t)(hi - lo + 1);
-  std::vector<std::array<T, N>> all;
-  for (vf::Odometer o(std::vector<uint32_t>(N, span)); !o.done; o.step()) {
-    std::array<T, N> a;
-    for (size_t i = 0; i < N; i++) a[i] = (T)(lo + (int)o.d[i]);
-    all.push_back(a);
-  }
-  for (size_t i = 0; i < all.size(); i++) {
-    for (size_t j = 0; j < all.size(); j++) {
-      for (size_t k = 0; k < all.size(); k++) {
-        if (!r.take()) continue;
-        if (r.wants_desc()) r.desc(vf::fmt("Vector%zu<%s> operator< on triple %s %s %s", N, tname<T>(), astr(all[i]).c_str(), astr(all[j]).c_str(), astr(all[k]).c_str()));
-        ck.triple(all[i], all[j], all[k]);
-      }
-    }
-  }
-}
-
-// ------------------------------------------------------------------------------------------------
-// Matrix4
-// ------------------------------------------------------------------------------------------------
-
-// plain reference matrix: e[row][col], textbook definitions
-struct RefM {
-  double e[4][4];
-};
-RefM ref_identity() {
-  RefM m{};
-  for (int i = 0; i < 4; i++) m.e[i][i] = 1;
-  return m;
-}
-
-struct MSpec {  // identity with up to two entries replaced
-  int n = 0;
-  int pos[2] = {0, 0};  // row*4+col
-  int val[2] = {0, 0};
-  RefM ref() const {
-    RefM m = ref_identity();
-    for (int i = 0; i < n; i++) m.e[pos[i] / 4][pos[i] % 4] = val[i];
-    return m;
-  }
-  std::string str() const {
-    std::string s = "I";
-    for (int i = 0; i < n; i++) s += vf::fmt(" with [row %d,col %d]=%d", pos[i] / 4, pos[i] % 4, val[i]);
-    return s;
-  }
-};
-
-// Matrix4 stores m[column][row] (operator*(Vector4) sums m[k][row]*v[k]); the harness never relies on
-// that except here, and `matrix_layout` below checks it against M*e_k = k-th column.
-template <class T>
-Matrix4<T> build(const RefM& rm) {
-  Matrix4<T> m;
-  for (int row = 0; row < 4; row++)
-    for (int col = 0; col < 4; col++) m.m[col][row] = (T)rm.e[row][col];
-  return m;
-}
-template <class T>
-RefM unbuild(const Matrix4<T>& m) {
-  RefM rm;
-  for (int row = 0; row < 4; row++)
-    for (int col = 0; col < 4; col++) rm.e[row][col] = (double)m.m[col][row];
-  return rm;
-}
-RefM ref_mul(const RefM& a, const RefM& b) {
-  RefM o{};
-  for (int i = 0; i < 4; i++)
-    for (int j = 0; j < 4; j++)
-      for (int k = 0; k < 4; k++) o.e[i][j] += a.e[i][k] * b.e[k][j];
-  return o;
-}
-std::array<double, 4> ref_mulv(const RefM& a, const std::array<double, 4>& v) {
-  std::array<double, 4> o{};
-  for (int i = 0; i < 4; i++)
-    for (int k = 0; k < 4; k++) o[i] += a.e[i][k] * v[k];
-  return o;
-}
-bool ref_eq(const RefM& a, const RefM& b) {
-  for (int i = 0; i < 4; i++)
-    for (int j = 0; j < 4; j++)
-      if (a.e[i][j] != b.e[i][j]) return false;
-  return true;
-}
-std::string ref_str(const RefM& a) {
-  std::string s = "[";
-  for (int i = 0; i < 4; i++) {
-    s += i ? " | " : "";
-    for (int j = 0; j < 4; j++) s += vf::fmt(j ? " %g" : "%g", a.e[i][j]);
-  }
-  return s + "]";
-}
-
-std::vector<MSpec> matrix_specs(int max_entries) {
-  static const int vals[4] = {-2, -1, 1, 2};
-  std::vector<MSpec> out;
-  out.push_back(MSpec());
-  for (int p = 0; p < 16; p++)
-    for (int v : vals) {
-      MSpec s;
-      s.n = 1; s.pos[0] = p; s.val[0] = v;
-      out.push_back(s);
-    }
-  if (max_entries >= 2) {
-    for (int p = 0; p < 16; p++)
-      for (int q = p + 1; q < 16; q++)
-        for (int v : vals)
-          for (int w : vals) {
-            MSpec s;
-            s.n = 2; s.pos[0] = p; s.val[0] = v; s.pos[1] = q; s.val[1] = w;
-            out.push_back(s);
-          }
-  }
-  return out;
-}
-
-const std::array<double, 4> TEST_VECS[3] = {{1, 2, 3, 4}, {-1, 2, -3, 5}, {0, 1, 0, -2}};
-
-template <class T>
-struct MatCheck {
-  vf::Run& r;
-  bool bad = false;
-  explicit MatCheck(vf::Run& r) : r(r) {}
-  template <class D>
-  void flag(const char* law, D&& d) {
-    bad = true;
-    r.fail(std::string("Matrix4:") + law, [&] { return std::string("Matrix4<") + tname<T>() + "> " + d(); });
-  }
-  static std::array<double, 4> vc(const Vector4<T>& v) { return {(double)v.x, (double)v.y, (double)v.z, (double)v.w}; }
-  static Vector4<T> mkv(const std::array<double, 4>& v) { return Vector4<T>((T)v[0], (T)v[1], (T)v[2], (T)v[3]); }
-
-  void single(const MSpec& s) {
-    bad = false;
-    RefM ra = s.ref();
-    Matrix4<T> A = build<T>(ra), I;
-    auto ctx = [&] { return "A = " + s.str(); };
-    if (!ref_eq(unbuild(I), ref_identity())) flag("default-not-identity", ctx);
-    Matrix4<T> At = A.transposition();
-    RefM rt;
-    for (int i = 0; i < 4; i++)
-      for (int j = 0; j < 4; j++) rt.e[i][j] = ra.e[j][i];
-    if (!ref_eq(unbuild(At), rt)) flag("transposition-wrong", ctx);
-    if (!(At.transposition() == A) || !ref_eq(unbuild(At.transposition()), ra)) flag("transpose-twice-not-identity", ctx);
-    {
-      Matrix4<T> B = A;
-      Matrix4<T>& ref = B.transpose();
-      if (&ref != &B || !ref_eq(unbuild(B), rt)) flag("transpose-in-place-wrong", ctx);
-      B.transpose();
-      if (!ref_eq(unbuild(B), ra)) flag("transpose-twice-not-identity", ctx);
-    }
-    if (!ref_eq(unbuild(A * I), ra)) flag("A*I!=A", ctx);
-    if (!ref_eq(unbuild(I * A), ra)) flag("I*A!=A", ctx);
-    if (!(A == A) || (A != A)) flag("operator==", ctx);
-    if ((A == I) != ref_eq(ra, ref_identity()) || (A != I) == ref_eq(ra, ref_identity())) flag("operator==", ctx);
-    for (auto& v : TEST_VECS) {
-      if (vc(A * mkv(v)) != ref_mulv(ra, v)) flag("matrix*vector-wrong", [&] { return ctx() + " v=" + astr(v) + " got " + astr(vc(A * mkv(v))) + " want " + astr(ref_mulv(ra, v)); });
-      if (vc(I * mkv(v)) != v) flag("I*v!=v", ctx);
-    }
-    r.nontriv();
-    if (!bad) r.ok(s.n == 0 ? "single: identity" : "single: perturbed identity");
-  }
-
-  void pair(const MSpec& sa, const MSpec& sb) {
-    bad = false;
-    RefM ra = sa.ref(), rb = sb.ref();
-    Matrix4<T> A = build<T>(ra), B = build<T>(rb);
-    auto ctx = [&] { return "A = " + sa.str() + "; B = " + sb.str(); };
-    Matrix4<T> AB = A * B;
-    RefM rab = ref_mul(ra, rb);
-    for (auto& v : TEST_VECS) {
-      Vector4<T> x = mkv(v);
-      auto lhs = vc(AB * x), rhs = vc(A * (B * x));
-      if (lhs != rhs) flag("(AB)v!=A(Bv)", [&] { return ctx() + " v=" + astr(v) + " (AB)v=" + astr(lhs) + " A(Bv)=" + astr(rhs); });
-    }
-    if (!ref_eq(unbuild(AB), rab)) flag("product-wrong", [&] { return ctx() + " A*B=" + ref_str(unbuild(AB)) + " textbook product=" + ref_str(rab); });
-    {
-      Matrix4<T> C = A;
-      C *= B;
-      if (!(C == AB)) flag("operator*=-differs-from-operator*", ctx);
-    }
-    if (!((AB).transposition() == B.transposition() * A.transposition())) flag("(AB)^T!=B^T*A^T", ctx);
-    if (!ref_eq(unbuild(A + B), [&] { RefM o; for (int i = 0; i < 4; i++) for (int j = 0; j < 4; j++) o.e[i][j] = ra.e[i][j] + rb.e[i][j]; return o; }())) flag("operator+-wrong", ctx);
-    if (!ref_eq(unbuild(A - B), [&] { RefM o; for (int i = 0; i < 4; i++) for (int j = 0; j < 4; j++) o.e[i][j] = ra.e[i][j] - rb.e[i][j]; return o; }())) flag("operator--wrong", ctx);
-    r.nontriv();
-    if (!bad) r.ok(ref_eq(rab, ref_mul(rb, ra)) ? "pair: commuting" : "pair: non-commuting");
-  }
-
-  void triple(const MSpec& sa, const MSpec& sb, const MSpec& sc) {
-    bad = false;
-    Matrix4<T> A = build<T>(sa.ref()), B = build<T>(sb.ref()), C = build<T>(sc.ref());
-    auto ctx = [&] { return "A = " + sa.str() + "; B = " + sb.str() + "; C = " + sc.str(); };
-    Matrix4<T> L = (A * B) * C, R = A * (B * C);
-    if (!(L == R)) flag("(AB)C!=A(BC)", ctx);
-    if (!ref_eq(unbuild(L), ref_mul(ref_mul(sa.ref(), sb.ref()), sc.ref()))) flag("product-wrong", ctx);
-    for (auto& v : TEST_VECS) {
-      Vector4<T> x = mkv(v);
-      if (vc(L * x) != vc(A * (B * (C * x)))) flag("(AB)v!=A(Bv)", [&] { return ctx() + " v=" + astr(v); });
-    }
-    r.nontriv();
-    if (!bad) r.ok("triple of elementary matrices");
-  }
-};
-
 }  // namespace
 
 // ================================================================================================
@@ -779,6 +573,9 @@ struct MatCheck {
 #define EACH_INT_TYPE(F)                                                                  \
   F(int8_t, "int8_t") F(uint8_t, "uint8_t") F(int16_t, "int16_t") F(uint16_t, "uint16_t") \
   F(int32_t, "int32_t") F(uint32_t, "uint32_t") F(int64_t, "int64_t") F(uint64_t, "uint64_t")
+#define F32_64(F) F(int32_t, "int32_t") F(uint32_t, "uint32_t") F(int64_t, "int64_t") F(uint64_t, "uint64_t")
+
+#define EACH_GCD_TYPE(F) EACH_INT_TYPE(F) F(long long, "long long") F(unsigned long long, "unsigned long long")
 
 VF_SECTION(gcd, 8, 8, 90) {
 #define G(T, N) gcd_type<T>(r, N);
@@ -787,15 +584,38 @@ VF_SECTION(gcd, 8, 8, 90) {
   r.bound = "gcd and reduce_fraction for each of the 8 integer widths: all pairs in [0,300]^2 clipped to the type, plus all (boundary x boundary/small) pairs of {max, max-1, max-2, max/2, max/2+1, 2^(w-1), ...}; non-negative operands; reduce_fraction(0,0) not called";
 }
 
+VF_SECTION(gcd_grid, 16, 16, 90) {
+#define G(T, N) gcd_grid<T>(r, N);
+  EACH_GCD_TYPE(G)
+#undef G
+  r.bound = "gcd and reduce_fraction for the 8 fixed-width integer types plus long long / unsigned long long: ALL ordered pairs of {0,1,2,3,6} U {2^k-1, 2^k, 2^k+1, 3*2^k, 6*2^k : k < width} U {max-1, max} clipped to the type (non-negative); each call runs with SIGFPE turned into an outcome";
+}
+
+VF_SECTION(gcd_hist, 16, 16, 90) {
+#define G(T, N) gcd_histories<T>(r, N);
+  EACH_GCD_TYPE(G)
+#undef G
+  r.bound = "histories of gcd/reduce_fraction calls on one thread for 10 integer types: every ordered pair (p,q) of the 121-144 operand pairs over {0,1,2,6,2^(w/2-1),2^(w/2)-1,2^(w/2),3*2^(w/2-1),2^(w-2),2^(w-1),max-1,max} as gcd(p) gcd(q) gcd(p) reduce(q) reduce(p) gcd(q); every ordered triple of the 25 pairs over {0,6,2^(w/2),3*2^(w/2-1),max} as gcd x3 then reduce_fraction x3; every result compared with libstdc++ std::gcd";
+}
+
 VF_SECTION(log2i, 4, 4, 90) {
 #define G(T, N) log2i_type<T>(r, N);
   EACH_INT_TYPE(G)
 #undef G
-  r.note("log2i<int64_t> lanes");
-  log2i_lanes<int64_t>(r, "int64_t");
-  r.note("log2i<uint64_t> lanes");
-  log2i_lanes<uint64_t>(r, "uint64_t");
-  r.bound = "log2i for 8 integer widths: every positive value up to 2^16 (complete for 8/16-bit), 2^k and 2^k+-1 for every k, type max; 64-bit: every positive value with byte lanes from {00,01,7F,80,FF}";
+#define G(T, N) r.note("log2i<" N "> lanes"); log2i_lanes<T>(r, N);
+  F32_64(G)
+#undef G
+#define G(T, N) log2i_twobit<T>(r, N);
+  EACH_INT_TYPE(G)
+#undef G
+  r.bound = "log2i for 8 integer widths: every positive value up to 2^16 (complete for 8/16-bit), 2^k and 2^k+-1 for every k, type max; 32/64-bit: every positive value with byte lanes from {00,01,7F,80,FF}; every value with two bits set and every run of ones (2^(j+1)-2^i)";
+}
+
+VF_SECTION(log2i_hist, 4, 4, 90) {
+#define G(T, N) log2i_histories<T>(r, N);
+  EACH_INT_TYPE(G)
+#undef G
+  r.bound = "histories log2i(u) log2i(v) log2i(u) for all ordered pairs (u,v) of {2^k-1, 2^k, 2^k+1 : k < width} U {max}, 8 integer types; every result must satisfy the defining equation";
 }
 
 // thorough only: all 2^32 values of uint32_t (and the positive half for int32_t), 65536 values per case
@@ -829,20 +649,20 @@ VF_SECTION(log2i_all32, 0, 16, 120) {
 }
 
 // ---- random_int: result within [lo,hi] under every owned stream; onto for ranges <= 256 -----------
-VF_SECTION(random_int, 4, 4, 120) {
+VF_SECTION(random_int, 16, 16, 150) {
   r.note("random_int");
   std::vector<Pair> pairs = random_int_pairs(false);
   std::vector<Stream> base;
   for (unsigned c : {0x00u, 0xFFu, 0x80u, 0x7Fu, 0x01u}) { Stream s; s.kind = ST_CONST; s.param = c; base.push_back(s); }
   for (unsigned k : {0u, 1u, 2u}) { Stream s; s.kind = ST_DIGIT; s.param = k; base.push_back(s); }
 
-  auto check_results = [&](const Stream& st, const std::vector<Pair>& ps, const ChildResult& cr, const char* what) {
+  auto check_results = [&](const Stream& st, const std::vector<Pair>& ps, const ChildResult& cr, const char* what, size_t skip = 0) {
     if (!cr.ok) {
-      r.fail("random_int:child-died", [&] { return vf::fmt("%s under stream '%s': %s", what, st.name().c_str(), cr.why.c_str()); });
+      r.fail("random_int:child-died", [&] { return vf::fmt("%s%s under stream '%s': %s", ps.size() == 1 ? (pair_str(ps[0]) + " as ").c_str() : "", what, st.name().c_str(), cr.why.c_str()); });
       return false;
     }
-    const int64_t* res = (const int64_t*)(cr.data.data() + 17);
-    size_t n = (cr.data.size() - 17) / 8;
+    const int64_t* res = (const int64_t*)(cr.data.data() + 17 + skip);
+    size_t n = (cr.data.size() - 17 - skip) / 8;
     bool bad = n != ps.size();
     for (size_t i = 0; i < n && i < ps.size(); i++) {
       r.counters["random_int_calls"]++;
@@ -853,15 +673,55 @@ VF_SECTION(random_int, 4, 4, 120) {
     }
     return !bad;
   };
+  auto call_all = [&](const std::vector<Pair>& ps) {
+    return [&ps](std::string& out) {
+      for (auto& p : ps) {
+        errno = g_ambient_errno;
+        int64_t v = phosg::random_int(p.lo, p.hi);
+        out.append((const char*)&v, 8);
+      }
+    };
+  };
+  // a list of calls in one child; when the child dies, every call again in a child of its own to name the culprit
+  auto run_list = [&](const Stream& st, const std::vector<Pair>& ps, const char* what) {
+    ChildResult cr = run_child(st, r.ambient_errno(), call_all(ps), 20);
+    if (cr.ok) return check_results(st, ps, cr, what);
+    bool located = false;
+    for (auto& p : ps) {
+      std::vector<Pair> one = {p};
+      ChildResult c1 = run_child(st, r.ambient_errno(), call_all(one), 20);
+      if (!check_results(st, one, c1, "first call")) located = true;
+    }
+    if (!located) check_results(st, ps, cr, what);
+    return false;
+  };
+  auto width_class = [](const Pair& p) {
+    uint64_t d = (uint64_t)p.hi - (uint64_t)p.lo;
+    return d < 255 ? "8-bit draw" : d < 65535 ? "16-bit draw" : d < 0xFFFFFFFFull ? "32-bit draw" : "64-bit draw";
+  };
 
   // (A) each (stream, pair) as the very first call of a fresh child
   for (auto& st : base) {
     for (auto& p : pairs) {
       if (!r.take()) continue;
       if (r.wants_desc()) r.desc(pair_str(p) + " as the first call in a pristine process, urandom stream: " + st.name());
-      ChildResult cr = run_child(st, [&](std::string& out) { int64_t v = phosg::random_int(p.lo, p.hi); out.append((const char*)&v, 8); });
+      std::vector<Pair> one = {p};
+      ChildResult cr = run_child(st, r.ambient_errno(), call_all(one), 20);
       r.nontriv();
-      if (check_results(st, {p}, cr, "first call")) r.ok((uint64_t)p.hi - (uint64_t)p.lo < 255 ? "first call: 8-bit draw" : (uint64_t)p.hi - (uint64_t)p.lo < 65535 ? "first call: 16-bit draw" : (uint64_t)p.hi - (uint64_t)p.lo < 0xFFFFFFFFull ? "first call: 32-bit draw" : "first call: 64-bit draw");
+      if (check_results(st, one, cr, "first call")) r.ok(std::string("first call: ") + width_class(p));
+    }
+  }
+  // (A2) span grid: hi-lo in {2^k-2 .. 2^k+1} for every k <= 63, each with every boundary lo; one child per (stream, span)
+  std::vector<uint64_t> spans = span_grid();
+  size_t grid_pairs = 0;
+  for (uint64_t d : spans) grid_pairs += pairs_for_span(d).size();
+  for (auto& st : base) {
+    for (uint64_t d : spans) {
+      if (!r.take()) continue;
+      std::vector<Pair> ps = pairs_for_span(d);
+      if (r.wants_desc()) r.desc(vf::fmt("random_int(lo, lo+%llu) for the %zu boundary values of lo in one pristine process, urandom stream: %s", (unsigned long long)d, ps.size(), st.name().c_str()));
+      r.nontriv();
+      if (run_list(st, ps, "span grid")) r.ok(std::string("span grid: ") + width_class(ps[0]));
     }
   }
   // (B) the whole pair list as one history (buffer in every fill state), forwards and backwards
@@ -871,56 +731,137 @@ VF_SECTION(random_int, 4, 4, 120) {
       std::vector<Pair> ps = pairs;
       if (rev) std::reverse(ps.begin(), ps.end());
       if (r.wants_desc()) r.desc(vf::fmt("history of %zu random_int calls over the boundary (lo,hi) list%s, urandom stream: %s", ps.size(), rev ? " reversed" : "", st.name().c_str()));
-      ChildResult cr = run_child(st, [&](std::string& out) { for (auto& p : ps) { int64_t v = phosg::random_int(p.lo, p.hi); out.append((const char*)&v, 8); } });
+      ChildResult cr = run_child(st, r.ambient_errno(), call_all(ps));
       r.nontriv();
       if (check_results(st, ps, cr, "history")) r.ok("history of calls: all in range");
     }
   }
-  // (C) ranges <= 256: over the 256 shifted-counter streams (every consumed byte takes every value) the
-  // results cover [lo,hi] completely.  One case = one (lo,hi) = 256 children.
-  std::vector<Pair> small = random_int_pairs(true);
-  for (auto& p : small) {
+  // (C) ranges <= 256: over the 256 shifted-counter streams (every consumed byte takes every value, whatever stream
+  // position a call consumes) the results of every call cover [lo,hi] completely.  One case = one span = 256 children,
+  // each making the calls for all boundary lo.
+  std::vector<uint64_t> small_spans;
+  {
+    std::set<uint64_t> s = {0, 1, 2, 254, 255};
+    for (uint64_t d : spans) if (d <= 255) s.insert(d);
+    small_spans.assign(s.begin(), s.end());
+  }
+  for (uint64_t d : small_spans) {
     if (!r.take()) continue;
-    if (r.wants_desc()) r.desc(pair_str(p) + " as first call under each of the 256 shifted-counter streams: results must lie in [lo,hi] and cover it");
-    std::set<int64_t> seen;
+    std::vector<Pair> ps = pairs_for_span(d);
+    for (int64_t lo : std::initializer_list<int64_t>{-(int64_t)d, -(int64_t)(d / 2), 1000}) ps.push_back({lo, (int64_t)(lo + (int64_t)d)});
+    if (r.wants_desc()) r.desc(vf::fmt("random_int(lo, lo+%llu) for %zu values of lo under each of the 256 shifted-counter streams: results must lie in [lo,hi] and cover it", (unsigned long long)d, ps.size()));
+    std::vector<std::set<int64_t>> seen(ps.size());
     bool bad = false;
     for (unsigned b = 0; b < 256; b++) {
       Stream st; st.kind = ST_SHIFT; st.param = b;
-      ChildResult cr = run_child(st, [&](std::string& out) { int64_t v = phosg::random_int(p.lo, p.hi); out.append((const char*)&v, 8); });
-      if (!check_results(st, {p}, cr, "first call")) { bad = true; continue; }
-      seen.insert(*(const int64_t*)(cr.data.data() + 17));
+      ChildResult cr = run_child(st, r.ambient_errno(), call_all(ps), 20);
+      if (!check_results(st, ps, cr, "onto sweep")) { bad = true; if (!cr.ok) break; continue; }
+      for (size_t i = 0; i < ps.size(); i++) seen[i].insert(((const int64_t*)(cr.data.data() + 17))[i]);
     }
     r.nontriv();
-    uint64_t range = (uint64_t)p.hi - (uint64_t)p.lo + 1;
-    if (!bad && seen.size() != range) {
-      bad = true;
-      r.fail("random_int:not-onto", [&] {
-        std::string miss;
-        for (int64_t v = p.lo; v <= p.hi && miss.size() < 60; v++) if (!seen.count(v)) miss += vf::fmt(" %lld", (long long)v);
-        return vf::fmt("%s: the 256 streams whose consumed byte takes every value 0..255 produce only %zu of the %llu values; never returned:%s", pair_str(p).c_str(), seen.size(), (unsigned long long)range, miss.c_str());
-      });
+    for (size_t i = 0; i < ps.size() && !bad; i++) {
+      if (seen[i].size() != d + 1) {
+        bad = true;
+        const Pair& p = ps[i];
+        r.fail("random_int:not-onto", [&] {
+          std::string miss;
+          for (int64_t v = p.lo; v <= p.hi && miss.size() < 60; v++) if (!seen[i].count(v)) miss += vf::fmt(" %lld", (long long)v);
+          return vf::fmt("%s: the 256 streams whose consumed byte takes every value 0..255 produce only %zu of the %llu values; never returned:%s", pair_str(p).c_str(), seen[i].size(), (unsigned long long)(d + 1), miss.c_str());
+        });
+      }
     }
     if (!bad) r.ok("256 byte values map onto [lo,hi]");
   }
-  r.bound = vf::fmt("random_int on %zu boundary (lo,hi) pairs (hi-lo in {0,1,2,254,255,256,65534,65535,65536,2^32-2,2^32-1,2^32,2^62,2^63-2,2^63-1} x lo in {INT64_MIN,-1,0,1,INT64_MAX-d,...}) x 8 owned urandom streams as first call and as one history; %zu pairs with range<=256 x 256 shifted streams (onto)", pairs.size(), small.size());
+  // (D) random_int right after random_data(n) left 0..9 bytes (or a whole refill) in the buffer: draws that straddle a refill
+  {
+    const Pair W[4] = {{-100, 100}, {-5, 60000}, {-5, 1ll << 31}, {-(1ll << 62), 1ll << 62}};
+    std::vector<size_t> pre = {4087, 4088, 4089, 4090, 4091, 4092, 4093, 4094, 4095, 4096, 8191};
+    for (unsigned si : {1u, 5u, 2u}) {  // constant FF, counter, constant 80
+      const Stream& st = base[si];
+      for (size_t n : pre) {
+        if (!r.take()) continue;
+        if (r.wants_desc()) r.desc(vf::fmt("random_data(%zu) followed by one random_int call of each draw width, urandom stream: %s", n, st.name().c_str()));
+        std::vector<Pair> ps(W, W + 4);
+        ChildResult cr = run_child(st, r.ambient_errno(), [&](std::string& out) {
+          for (auto& p : ps) {
+            std::string junk = phosg::random_data(n);
+            errno = g_ambient_errno;
+            int64_t v = phosg::random_int(p.lo, p.hi);
+            out.append((const char*)&v, 8);
+          }
+        }, 20);
+        r.nontriv();
+        if (check_results(st, ps, cr, "after random_data")) r.ok("draw across a refill boundary");
+      }
+    }
+  }
+  r.bound = vf::fmt("random_int on %zu boundary (lo,hi) pairs (hi-lo in {0,1,2,254,255,256,65534,65535,65536,2^32-2,2^32-1,2^32,2^62,2^63-2,2^63-1} x lo in {INT64_MIN,-1,0,1,INT64_MAX-d,...}) x 8 owned urandom streams as first call and as one history; "
+                    "span grid: hi-lo in {2^k-2,2^k-1,2^k,2^k+1 : k=1..63} (%zu spans) x lo in {INT64_MIN,-2^32,-1,0,1,2^31,2^32,INT64_MAX-d} (%zu pairs) x 8 streams; %zu spans <= 255 x up to 11 lo x 256 shifted streams (onto); "
+                    "random_int of each draw width after random_data(n), n in {4087..4096, 8191}, x 3 streams",
+      pairs.size(), spans.size(), grid_pairs, small_spans.size());
 }
 
-// ---- random_data: every history of <=3 requests; positions decoded from three digit streams --------
+// ---- random_data ------------------------------------------------------------------------------------------------------
+struct RdHistory {
+  std::vector<size_t> sizes;
+  size_t fork_after = 0;
+  std::string str() const { return sizes_str(sizes) + (fork_after ? vf::fmt(" (continued in a forked copy of the process after request #%zu)", fork_after - 1) : std::string()); }
+};
+
+// parses the report of rd_history_child (pointer overload): per request tag + frame
+struct RdReport {
+  std::vector<char> tags;
+  std::vector<std::string> frames;
+  bool parse(const std::string& d, const std::vector<size_t>& h) {
+    size_t off = 17;
+    for (size_t sz : h) {
+      size_t flen = CANARY + sz + CANARY;
+      if (off + 9 + flen > d.size() || *(const uint64_t*)(d.data() + off + 1) != sz) return false;
+      tags.push_back(d[off]);
+      frames.push_back(d.substr(off + 9, flen));
+      off += 9 + flen;
+    }
+    return off == d.size();
+  }
+  bool canary_ok(size_t j, size_t sz) const {
+    const std::string& f = frames[j];
+    for (size_t i = 0; i < CANARY; i++) if ((uint8_t)f[i] != 0xC0 + i || (uint8_t)f[CANARY + sz + i] != 0xD0 + i) return false;
+    return true;
+  }
+};
+
+// every history of <=3 requests; positions decoded from three digit streams
 VF_SECTION(random_data, 16, 16, 120) {
   r.note("random_data");
-  std::vector<std::vector<size_t>> hist;
+  std::vector<size_t> SZ = {0, 1, 2, 3, 4093, 4094, 4095, 4096, 4097, 4098, 8191, 8192, 8193};
+  if (r.thorough()) for (size_t x : {12287, 12288, 12289, 65537}) SZ.push_back(x);
+  std::vector<RdHistory> hist;
   for (size_t len = 1; len <= 3; len++) {
-    for (vf::Odometer o(std::vector<uint32_t>(len, 8)); !o.done; o.step()) {
-      std::vector<size_t> h;
-      for (size_t i = 0; i < len; i++) h.push_back(RD_SIZES[o.d[len - 1 - i]]);
+    for (vf::Odometer o(std::vector<uint32_t>(len, (uint32_t)SZ.size())); !o.done; o.step()) {
+      RdHistory h;
+      for (size_t i = 0; i < len; i++) h.sizes.push_back(SZ[o.d[len - 1 - i]]);
       hist.push_back(h);
     }
   }
-  for (auto& h : hist) {
+  size_t plain = hist.size();
+  // the same process image continued after fork(): histories of 2..3 requests, fork after the 1st or 2nd
+  const std::vector<size_t> FSZ = {1, 4095, 4096, 4097};
+  for (size_t len = 2; len <= 3; len++) {
+    for (vf::Odometer o(std::vector<uint32_t>(len, (uint32_t)FSZ.size())); !o.done; o.step()) {
+      for (size_t fa = 1; fa < len; fa++) {
+        RdHistory h;
+        for (size_t i = 0; i < len; i++) h.sizes.push_back(FSZ[o.d[len - 1 - i]]);
+        h.fork_after = fa;
+        hist.push_back(h);
+      }
+    }
+  }
+  for (auto& H : hist) {
     if (!r.take()) continue;
-    if (r.wants_desc()) r.desc("random_data(void*, n) history with sizes " + sizes_str(h) + " in a pristine process; urandom streams: position digits 0,1,2, constant 00, constant FF; string overload cross-checked");
+    const std::vector<size_t>& h = H.sizes;
+    if (r.wants_desc()) r.desc("random_data(void*, n) history with sizes " + H.str() + " in a pristine process; urandom streams: position digits 0,1,2, constant 00, constant FF; string overload cross-checked");
     bool bad = false;
-    auto die = [&](const std::string& why) { bad = true; r.fail("random_data:child-died", [&] { return "history " + sizes_str(h) + ": " + why; }); };
+    auto die = [&](const std::string& why) { bad = true; r.fail("random_data:child-died", [&] { return "history " + H.str() + ": " + why; }); };
     // three runs whose stream bytes are the three base-256 digits of the stream position
     std::vector<ChildResult> runs;
     std::vector<Stream> sts;
@@ -928,47 +869,38 @@ VF_SECTION(random_data, 16, 16, 120) {
     { Stream s; s.kind = ST_CONST; s.param = 0x00; sts.push_back(s); }
     { Stream s; s.kind = ST_CONST; s.param = 0xFF; sts.push_back(s); }
     for (auto& st : sts) {
-      runs.push_back(run_child(st, [&](std::string& out) { rd_history_child(h, false, out); }));
+      runs.push_back(run_child(st, r.ambient_errno(), [&](std::string& out) { rd_history_child(h, false, H.fork_after, false, out); }));
       r.counters["random_data_calls"] += h.size();
       if (!runs.back().ok) die("stream '" + st.name() + "': " + runs.back().why);
     }
-    ChildResult strrun = run_child(sts[0], [&](std::string& out) { rd_history_child(h, true, out); });
+    ChildResult strrun = run_child(sts[0], r.ambient_errno(), [&](std::string& out) { rd_history_child(h, true, H.fork_after, false, out); });
     r.counters["random_data_calls"] += h.size();
     if (!strrun.ok) die("string overload: " + strrun.why);
     if (bad) continue;
     r.nontriv();
-    uint64_t served = *(const uint64_t*)(runs[0].data.data() + 1);
+    uint64_t served = runs[0].served();
     size_t total = 0;
     for (size_t sz : h) total += sz;
     // parse frames
-    std::vector<std::vector<std::string>> frames(runs.size());
+    std::vector<RdReport> rep(runs.size());
     for (size_t k = 0; k < runs.size() && !bad; k++) {
-      const std::string& d = runs[k].data;
-      if (*(const uint64_t*)(d.data() + 1) != served) {
+      if (runs[k].served() != served) {
         bad = true;
-        r.fail("random_data:reads-depend-on-data", [&] { return "history " + sizes_str(h) + vf::fmt(": %llu bytes read from urandom under stream '%s' but %llu under '%s'", (unsigned long long)*(const uint64_t*)(d.data() + 1), sts[k].name().c_str(), (unsigned long long)served, sts[0].name().c_str()); });
+        r.fail("random_data:reads-depend-on-data", [&] { return "history " + H.str() + vf::fmt(": %llu bytes read from urandom under stream '%s' but %llu under '%s'", (unsigned long long)runs[k].served(), sts[k].name().c_str(), (unsigned long long)served, sts[0].name().c_str()); });
         break;
       }
-      size_t off = 17;
-      for (size_t sz : h) {
-        size_t flen = CANARY + sz + CANARY;
-        if (off + 8 + flen > d.size() || *(const uint64_t*)(d.data() + off) != sz) { die("malformed report"); break; }
-        frames[k].push_back(d.substr(off + 8, flen));
-        off += 8 + flen;
-        const std::string& f = frames[k].back();
-        bool canary_ok = true;
-        for (size_t i = 0; i < CANARY; i++) canary_ok = canary_ok && (uint8_t)f[i] == 0xC0 + i && (uint8_t)f[CANARY + sz + i] == 0xD0 + i;
-        if (!canary_ok) { bad = true; r.fail("random_data:writes-outside-request", [&] { return "history " + sizes_str(h) + vf::fmt(": bytes outside the %zu requested ones were modified (stream '%s')", sz, sts[k].name().c_str()); }); }
-      }
+      if (!rep[k].parse(runs[k].data, h)) { die("malformed report"); break; }
+      for (size_t j = 0; j < h.size(); j++)
+        if (!rep[k].canary_ok(j, h[j])) { bad = true; r.fail("random_data:writes-outside-request", [&] { return "history " + H.str() + vf::fmt(": bytes outside the %zu requested ones were modified (stream '%s')", h[j], sts[k].name().c_str()); }); }
     }
     if (bad) continue;
     // constant streams: every requested byte must carry the stream value (sentinel A5 differs from 00 and FF)
     for (size_t k = 3; k < 5 && !bad; k++) {
       for (size_t j = 0; j < h.size() && !bad; j++) {
         for (size_t i = 0; i < h[j]; i++) {
-          if ((uint8_t)frames[k][j][CANARY + i] != sts[k].param) {
+          if ((uint8_t)rep[k].frames[j][CANARY + i] != sts[k].param) {
             bad = true;
-            r.fail("random_data:byte-not-from-stream", [&] { return "history " + sizes_str(h) + vf::fmt(": request #%zu byte %zu is %02X under stream '%s' (buffer was pre-filled with A5)", j, i, (uint8_t)frames[k][j][CANARY + i], sts[k].name().c_str()); });
+            r.fail("random_data:byte-not-from-stream", [&] { return "history " + H.str() + vf::fmt(": request #%zu byte %zu is %02X under stream '%s' (buffer was pre-filled with A5)", j, i, (uint8_t)rep[k].frames[j][CANARY + i], sts[k].name().c_str()); });
             break;
           }
         }
@@ -978,15 +910,15 @@ VF_SECTION(random_data, 16, 16, 120) {
     std::vector<uint8_t> used(served, 0);
     for (size_t j = 0; j < h.size() && !bad; j++) {
       for (size_t i = 0; i < h[j]; i++) {
-        uint64_t pos = (uint64_t)(uint8_t)frames[0][j][CANARY + i] | ((uint64_t)(uint8_t)frames[1][j][CANARY + i] << 8) | ((uint64_t)(uint8_t)frames[2][j][CANARY + i] << 16);
+        uint64_t pos = (uint64_t)(uint8_t)rep[0].frames[j][CANARY + i] | ((uint64_t)(uint8_t)rep[1].frames[j][CANARY + i] << 8) | ((uint64_t)(uint8_t)rep[2].frames[j][CANARY + i] << 16);
         if (pos >= served) {
           bad = true;
-          r.fail("random_data:byte-not-from-stream", [&] { return "history " + sizes_str(h) + vf::fmt(": request #%zu byte %zu decodes to stream position %llu but only %llu bytes were read from urandom (A5A5A5 = byte left unwritten)", j, i, (unsigned long long)pos, (unsigned long long)served); });
+          r.fail("random_data:byte-not-from-stream", [&] { return "history " + H.str() + vf::fmt(": request #%zu byte %zu decodes to stream position %llu but only %llu bytes were read from urandom (A5A5A5 = byte left unwritten)", j, i, (unsigned long long)pos, (unsigned long long)served); });
           break;
         }
         if (used[pos]++) {
           bad = true;
-          r.fail("random_data:byte-delivered-twice", [&] { return "history " + sizes_str(h) + vf::fmt(": stream byte at position %llu was delivered twice (second time as request #%zu byte %zu)", (unsigned long long)pos, j, i); });
+          r.fail("random_data:byte-delivered-twice", [&] { return "history " + H.str() + vf::fmt(": stream byte at position %llu was delivered twice (second time as request #%zu byte %zu)", (unsigned long long)pos, j, i); });
           break;
         }
       }
@@ -996,141 +928,89 @@ VF_SECTION(random_data, 16, 16, 120) {
       const std::string& d = strrun.data;
       size_t off = 17;
       for (size_t j = 0; j < h.size() && !bad; j++) {
-        uint64_t n = off + 8 <= d.size() ? *(const uint64_t*)(d.data() + off) : UINT64_MAX;
-        if (n != h[j] || off + 8 + n > d.size()) {
+        uint64_t n = off + 9 <= d.size() ? *(const uint64_t*)(d.data() + off + 1) : UINT64_MAX;
+        if (n != h[j] || off + 9 + n > d.size()) {
           bad = true;
-          r.fail("random_data(string):wrong-size", [&] { return "history " + sizes_str(h) + vf::fmt(": request #%zu returned a string of %llu bytes", j, (unsigned long long)n); });
+          r.fail("random_data(string):wrong-size", [&] { return "history " + H.str() + vf::fmt(": request #%zu returned a string of %llu bytes", j, (unsigned long long)n); });
           break;
         }
-        if (d.compare(off + 8, n, frames[0][j], CANARY, h[j]) != 0) {
+        if (d.compare(off + 9, n, rep[0].frames[j], CANARY, h[j]) != 0) {
           bad = true;
-          r.fail("random_data(string):differs-from-pointer-overload", [&] { return "history " + sizes_str(h) + vf::fmt(": request #%zu", j); });
+          r.fail("random_data(string):differs-from-pointer-overload", [&] { return "history " + H.str() + vf::fmt(": request #%zu", j); });
         }
-        off += 8 + n;
+        off += 9 + n;
       }
     }
     r.counters["bytes_requested"] += total;
     r.counters["urandom_bytes_served"] += served;
-    if (!bad) r.ok(total == 0 ? "history: nothing requested" : served == 4096 ? "history: served from one refill" : served == 0 ? "history: no read" : "history: several refills");
+    if (!bad) r.ok(H.fork_after ? "history continued after fork" : total == 0 ? "history: nothing requested" : served == 4096 ? "history: served from one refill" : served == 0 ? "history: no read" : "history: several refills");
   }
-  r.bound = "random_data: every history of 1..3 requests with sizes in {0,1,2,4095,4096,4097,8191,8193} (584 histories), each replayed in 6 forked children (3 position-digit streams, constant 00, constant FF, string overload)";
+  r.bound = vf::fmt("random_data: every history of 1..3 requests with sizes in %s (%zu histories) plus %zu histories of 2..3 requests over [1, 4095, 4096, 4097] continued in a forked copy of the process after the 1st/2nd request; each replayed in 6 forked children (3 position-digit streams, constant 00, constant FF, string overload)", sizes_str(SZ).c_str(), plain, hist.size() - plain);
 }
 
-VF_SECTION(vec2, 2, 2, 90) {
-  vec_pairs<int64_t, 2>(r, -4, 4);
-  vec_pairs<double, 2>(r, -4, 4);
-  r.bound = "Vector2<int64_t> and Vector2<double>: all ordered pairs with components in [-4,4] (6561 each) and every (vector, scalar in [-4,4])";
-}
-VF_SECTION(vec3, 16, 16, 90) {
-  vec_pairs<int64_t, 3>(r, -4, 4);
-  vec_pairs<double, 3>(r, -4, 4);
-  r.bound = "Vector3<int64_t> and Vector3<double>: all ordered pairs with components in [-4,4] (531441 each) and every (vector, scalar in [-4,4])";
-}
-VF_SECTION(vec4, 2, 2, 90) {
-  vec_pairs<int64_t, 4>(r, -1, 1);
-  vec_pairs<double, 4>(r, -1, 1);
-  r.bound = "Vector4<int64_t> and Vector4<double>: all ordered pairs with components in [-1,1] (6561 each) and every (vector, scalar in [-1,1])";
-}
-VF_SECTION(order, 16, 16, 90) {
-  vec_triples<int64_t, 2>(r, -4, 4);
-  vec_triples<double, 2>(r, -4, 4);
-  vec_triples<int64_t, 3>(r, -1, 1);
-  vec_triples<double, 3>(r, -1, 1);
-  vec_triples<int64_t, 4>(r, 0, 1);
-  vec_triples<double, 4>(r, 0, 1);
-  r.bound = "operator< strict-weak-order laws on all triples: Vector2 over [-4,4]^2 (531441), Vector3 over [-1,1]^3 (19683), Vector4 over {0,1}^4 (4096); int64_t and double";
-}
-
-template <class T>
-static void matrix_laws(vf::Run& r) {
-  r.note(std::string("Matrix4<") + tname<T>() + "> laws");
-  MatCheck<T> ck(r);
-  std::vector<MSpec> s1 = matrix_specs(1), s2 = matrix_specs(2);
-  for (auto& s : s2) {
-    if (!r.take()) continue;
-    if (r.wants_desc()) r.desc(std::string("Matrix4<") + tname<T>() + "> single-matrix laws, A = " + s.str());
-    ck.single(s);
+// ---- random_data when a read() on /dev/urandom fails or comes back short ------------------------------------------------
+// Don't-care: whether the affected request (and later ones) throw.  Demanded: no write outside the request, outcomes
+// do not depend on the data, a request made while no read has failed returns normally, and every request that returns
+// normally has every byte filled from the stream (never a byte the stream did not deliver).
+VF_SECTION(random_env, 16, 16, 120) {
+  r.note("random_data with failing reads");
+  const std::vector<size_t> SZ = {1, 4095, 4097, 8193};
+  std::vector<std::vector<size_t>> hist;
+  for (size_t len = 1; len <= 3; len++) {
+    for (vf::Odometer o(std::vector<uint32_t>(len, (uint32_t)SZ.size())); !o.done; o.step()) {
+      std::vector<size_t> h;
+      for (size_t i = 0; i < len; i++) h.push_back(SZ[o.d[len - 1 - i]]);
+      hist.push_back(h);
+    }
   }
-  // quick: (<=1 entry) x (<=2 entries) in both orders; thorough: all (<=2) x (<=2)
-  if (r.thorough()) {
-    for (auto& a : s2)
-      for (auto& b : s2) {
+  for (auto& h : hist) {
+    for (unsigned fail_at = 1; fail_at <= 3; fail_at++) {
+      for (int mode : {FM_EINTR, FM_EIO, FM_SHORT_HALF, FM_SHORT_ONE_LESS, FM_ZERO}) {
         if (!r.take()) continue;
-        if (r.wants_desc()) r.desc(std::string("Matrix4<") + tname<T>() + "> pair laws, A = " + a.str() + "; B = " + b.str());
-        ck.pair(a, b);
-      }
-  } else {
-    for (int order = 0; order < 2; order++)
-      for (auto& a : s1)
-        for (auto& b : s2) {
-          if (!r.take()) continue;
-          const MSpec& x = order ? b : a;
-          const MSpec& y = order ? a : b;
-          if (r.wants_desc()) r.desc(std::string("Matrix4<") + tname<T>() + "> pair laws, A = " + x.str() + "; B = " + y.str());
-          ck.pair(x, y);
+        std::vector<Stream> sts;
+        for (unsigned k = 0; k < 3; k++) { Stream s; s.kind = ST_DIGIT; s.param = k; sts.push_back(s); }
+        { Stream s; s.kind = ST_CONST; s.param = 0xFF; sts.push_back(s); }
+        for (auto& s : sts) { s.fail_at = fail_at; s.fail_mode = mode; }
+        std::string what = "random_data history " + sizes_str(h) + "; urandom " + sts[3].name().substr(sts[3].name().find(';') + 2);
+        if (r.wants_desc()) r.desc(what + "; streams: position digits 0,1,2 and constant FF");
+        bool bad = false;
+        std::vector<ChildResult> runs;
+        std::vector<RdReport> rep(sts.size());
+        for (size_t k = 0; k < sts.size() && !bad; k++) {
+          runs.push_back(run_child(sts[k], r.ambient_errno(), [&](std::string& out) { rd_history_child(h, false, 0, true, out); }));
+          r.counters["random_data_calls"] += h.size();
+          if (!runs[k].ok) { bad = true; r.fail("random_data:child-died", [&] { return what + ", stream '" + sts[k].name() + "': " + runs[k].why; }); break; }
+          if (!rep[k].parse(runs[k].data, h)) { bad = true; r.fail("random_data:child-died", [&] { return what + ": malformed report"; }); break; }
+          for (size_t j = 0; j < h.size(); j++)
+            if (!rep[k].canary_ok(j, h[j])) { bad = true; r.fail("random_data:writes-outside-request", [&] { return what + vf::fmt(": bytes outside the %zu requested ones of request #%zu were modified (stream '%s')", h[j], j, sts[k].name().c_str()); }); }
+          if (k && (rep[k].tags != rep[0].tags || runs[k].served() != runs[0].served())) { bad = true; r.fail("random_data:reads-depend-on-data", [&] { return what + ": outcomes or bytes read differ between stream '" + sts[k].name() + "' and '" + sts[0].name() + "'"; }); }
         }
-  }
-  for (auto& a : s1)
-    for (auto& b : s1)
-      for (auto& c : s1) {
-        if (!r.take()) continue;
-        if (r.wants_desc()) r.desc(std::string("Matrix4<") + tname<T>() + "> product of three elementary matrices, A = " + a.str() + "; B = " + b.str() + "; C = " + c.str());
-        ck.triple(a, b, c);
-      }
-}
-
-VF_SECTION(matrix, 16, 16, 90) {
-  matrix_laws<int64_t>(r);
-  matrix_laws<double>(r);
-  r.bound = r.thorough() ? "Matrix4<int64_t>/<double>: 1985 matrices differing from I in <=2 entries (values -2,-1,1,2): single laws; all 1985^2 ordered pairs; all 65^3 products of three elementary matrices; 3 test vectors"
-                         : "Matrix4<int64_t>/<double>: 1985 matrices differing from I in <=2 entries (values -2,-1,1,2): single laws; 65 x 1985 pairs in both orders; all 65^3 products of three elementary matrices; 3 test vectors";
-}
-
-VF_SECTION(invert, 16, 16, 90) {
-  r.note("Matrix4<double>::inverse");
-  static const double diag[4] = {5, -6, 9, 4.5};
-  for (vf::Odometer o(std::vector<uint32_t>(12, 3)); !o.done; o.step()) {
-    if (!r.take()) continue;
-    RefM rm{};
-    int k = 0;
-    for (int i = 0; i < 4; i++)
-      for (int j = 0; j < 4; j++) rm.e[i][j] = (i == j) ? diag[i] : (double)((int)o.d[k++] - 1);
-    if (r.wants_desc()) r.desc("Matrix4<double> inverse of strictly diagonally dominant M = " + ref_str(rm));
-    Matrix4<double> M = build<double>(rm);
-    std::string oc;
-    Matrix4<double> inv;
-    oc = vf::outcome([&] { inv = M.inverse(); });
-    r.nontriv();
-    if (oc != "ok") {
-      r.fail("Matrix4::inverse:throws", [&] { return "M = " + ref_str(rm) + " is strictly diagonally dominant but inverse() threw " + oc; });
-      continue;
-    }
-    bool bad = false;
-    RefM ri = unbuild(inv);
-    RefM p1 = ref_mul(rm, ri), p2 = ref_mul(ri, rm);  // textbook products (independent of Matrix4::operator*)
-    RefM q1 = unbuild(M * inv), q2 = unbuild(inv * M);
-    double worst = 0;
-    for (int i = 0; i < 4; i++)
-      for (int j = 0; j < 4; j++) {
-        double want = i == j ? 1 : 0;
-        for (double got : {p1.e[i][j], p2.e[i][j], q1.e[i][j], q2.e[i][j]}) {
-          double err = fabs(got - want);
-          if (!(err <= worst)) worst = err;  // NaN propagates into worst
+        r.nontriv();
+        if (bad) continue;
+        uint64_t served = runs[0].served();
+        bool injected = runs[0].reads() >= fail_at;
+        size_t returned = 0;
+        for (size_t j = 0; j < h.size() && !bad; j++) {
+          if (rep[0].tags[j] != 'K') {
+            if (!injected) { bad = true; r.fail("random_data:throws-without-read-failure", [&] { return what + vf::fmt(": request #%zu threw although every read() so far was served completely (%llu reads)", j, (unsigned long long)runs[0].reads()); }); }
+            continue;
+          }
+          returned++;
+          for (size_t i = 0; i < h[j]; i++) {
+            uint64_t pos = (uint64_t)(uint8_t)rep[0].frames[j][CANARY + i] | ((uint64_t)(uint8_t)rep[1].frames[j][CANARY + i] << 8) | ((uint64_t)(uint8_t)rep[2].frames[j][CANARY + i] << 16);
+            uint8_t c = (uint8_t)rep[3].frames[j][CANARY + i];
+            if (pos >= served || c != 0xFF) {
+              bad = true;
+              r.fail(injected ? "random_data:byte-not-from-stream-after-failed-read" : "random_data:byte-not-from-stream", [&] { return what + vf::fmt(": request #%zu returned normally but its byte %zu is %02X under the constant-FF stream and decodes to stream position %llu under the digit streams; only %llu bytes were ever read from urandom (A5 = left unwritten)", j, i, c, (unsigned long long)pos, (unsigned long long)served); });
+              break;
+            }
+          }
         }
+        if (!bad) r.ok(!injected ? "failure never reached: all requests returned" : returned == h.size() ? "read failed, every request returned" : returned ? "read failed: some requests threw, the others are filled from the stream" : "read failed: every request threw");
       }
-    if (!(worst <= 1e-9)) {
-      bad = true;
-      r.fail("Matrix4::inverse:M*inverse(M)!=I", [&] { return "M = " + ref_str(rm) + "; inverse() = " + ref_str(ri) + vf::fmt("; max |M*inv - I| = %g (tolerance 1e-9)", worst); });
     }
-    {
-      Matrix4<double> N = M;
-      Matrix4<double>& ref = N.invert();
-      if (&ref != &N || !(N == inv)) { bad = true; r.fail("Matrix4::invert:differs-from-inverse", [&] { return "M = " + ref_str(rm); }); }
-      if (!ref_eq(unbuild(M), rm)) { bad = true; r.fail("Matrix4::inverse:modifies-operand", [&] { return "M = " + ref_str(rm); }); }
-    }
-    if (!bad) r.ok(worst == 0 ? "inverse exact" : worst < 1e-15 ? "inverse within 1e-15" : "inverse within 1e-9");
   }
-  r.bound = "Matrix4<double>::inverse/invert for diagonal (5,-6,9,4.5) and all 3^12 = 531441 off-diagonal assignments over {-1,0,1} (strictly diagonally dominant by rows and columns)";
+  r.bound = vf::fmt("random_data: every history of 1..3 requests with sizes in %s (%zu) x the 1st/2nd/3rd read() on /dev/urandom answering {EINTR, EIO, half of the bytes, one byte less, 0} x 4 owned streams (requests catch their own exception)", sizes_str(SZ).c_str(), hist.size());
 }
 
 VF_MAIN()
